@@ -12,7 +12,8 @@ SeqsOfLen(S, n) == IF n = 0 THEN {<<>>} ELSE {Append(s, x): s \in SeqsOfLen(S, n
 Lists == UNION {SeqsOfLen(KindIds, n): n \in 0..MaxLen}
 PatLists == {<<>>, <<"*Mouse*">>, <<"AT Translated Set 2 keyboard">>, <<"*">>, <<"Nothing*", "totalmapper">>, <<"AT*", "*Keys">>,
              <<"*keyboard">>, <<"?T Translated Set 2 keyboard", "Compact?Keys">>, <<"SINO WEALTH Gaming KB ">>, <<"SINO WEALTH Gaming KB", "*Mouse*">>, <<"*KB?">>, <<"* ">>, <<"">>, <<"AT*", "">>,
-             <<"Microsoft Microsoft(R) 2.4GHz Transceiver v9.0">>, <<"*Microsoft(R)*">>, <<"Nothing*", "*(R) 2.4GHz Transceiver v9.0">>}
+             <<"Microsoft Microsoft(R) 2.4GHz Transceiver v9.0">>, <<"*Microsoft(R)*">>, <<"Nothing*", "*(R) 2.4GHz Transceiver v9.0">>,
+             <<"*7\"">>, <<"Rii Mini Keyboard 7">>, <<"Nothing*", "Rii Mini Keyboard 7\"">>}
 \* the singles come first, with the empty exclude list: they are the per-entry reference
 Singles == [i \in KindIds |-> [entries |-> <<i>>, excludes |-> <<>>]]
 Rest == SetToSeq({[entries |-> l, excludes |-> p]: l \in Lists, p \in PatLists} \ {Singles[i]: i \in KindIds})
